@@ -239,11 +239,17 @@ def r_smt_same_handle(ctx):
                     ctx.ok("R-ATTR", f"{where}: {ev.data['name']}() exists on {classes}")
             # the text written IS the serialisation, not something computed from it (a filtered or truncated text is another system)
             def leaves(t):
-                return leaves(t[2]) + leaves(t[3]) if isinstance(t, tuple) and t and t[0] == "phi" and len(t) == 4 else [norm(t)]
+                if isinstance(t, tuple) and t and t[0] == "phi" and len(t) == 4:
+                    if "self.debug" in show(t[1]):
+                        return leaves(t[3])      # the tracked (debug) configuration is R-SMT-TRACKED's matter: the plain one is decided here
+                    return leaves(t[2]) + leaves(t[3])
+                return [norm(t)]
 
             def is_ser(t):
                 return isinstance(t, tuple) and len(t) == 5 and t[0] == "mcall" and t[1] == A(SELF, "_solver") and t[2] in ("to_smt2", "sexpr") \
                     and not t[3] and not t[4]
+            if any("self.debug" in k_ and v_ is True for k_, v_ in run.decisions):
+                continue             # the tracked (debug) configuration is R-SMT-TRACKED's matter
             this = norm(("mcall", ev.data["recv"], ev.data["name"], ev.data["args"], ev.data["kwargs"]))
             # (a conditional between the serialisations of the same handle - one per class it can hold - is still the serialisation)
             used = any(this in leaves(w.data["args"][0]) and all(is_ser(x) for x in leaves(w.data["args"][0]))
@@ -767,3 +773,36 @@ def r_report_readonly(ctx):
 
 C17_RULES.append(r_report_readonly)
 C16_RULES.append(r_report_readonly)
+
+
+def r_smt_tracked(ctx):
+    """'the SMT-LIB export denotes the same constraint system the solver checks ... satisfiable exactly when the problem is': in
+    debug mode append_z3_assertion hands every assertion to the handle through assert_and_track(formula, label).  z3 serialises a
+    tracked assertion as `(=> label formula)` with the label a free Boolean constant (library fact, reproduced in
+    design_notes/witness_40_debug_smt_export.py), while check() assumes the labels: the exported text is then satisfiable for every
+    problem.  Decided structurally: if some configuration asserts through assert_and_track, export_to_smt2 must treat that
+    configuration apart (branch on self.debug / on the tracked state) - it does not today: recorded finding."""
+    where = "SchedulingSolver.export_to_smt2"
+    tracked_sites = []
+    for run in runs_of(ctx, Entry("method", cls="SchedulingSolver", name="append_z3_assertion")):
+        for ev in run.events_of("mcall"):
+            if ev.data["name"] == "assert_and_track" and is_solver_handle(ev.data["recv"]):
+                tracked_sites.append((describe_config(run)[:60], ev.site.lineno))
+    ctx.floor("R-SMT-TRACKED", "paths of append_z3_assertion examined", len(runs_of(ctx, Entry("method", cls="SchedulingSolver", name="append_z3_assertion"))), 2)
+    if not tracked_sites:
+        ctx.ok("R-SMT-TRACKED", "no configuration asserts through assert_and_track: the serialisation is the asserted system")
+        return
+    runs = live_runs(ctx, Entry("method", cls="SchedulingSolver", name="export_to_smt2",
+                                opaque=("initialize", "sort_no_duplicates", "sort_duplicates")), "R-SMT-TRACKED")
+    aware = any("debug" in k or "_map_boolrefs_to_constraints" in k for run in runs for k, _v in run.decisions)
+    if aware:
+        ctx.ok("R-SMT-TRACKED", f"{where} distinguishes the tracked (debug) configuration")
+    else:
+        ctx.violation("R-SMT-TRACKED", where, "tracked assertions are exported with their labels left free",
+                      f"with debug=True assertions reach the handle through assert_and_track (append_z3_assertion, line "
+                      f"{tracked_sites[0][1]}) and export_to_smt2 writes the plain serialisation on every path: each assertion is "
+                      f"printed as `(=> label formula)` with a free label, so the exported system is satisfiable whatever the problem "
+                      f"(an infeasible problem exports a satisfiable text)", "processscheduler/solver.py")
+
+
+C16_RULES.append(r_smt_tracked)
